@@ -9,7 +9,8 @@ MIRI_DIR = os.path.join(core.VERIF, "miri")
 PROGRAMS = ["traverse", "clone_drop", "data", "green"]
 # (no data operations here: the node data lives inside its RwLock, so how the data methods lock is not a data-race question but
 # C18's; a change there must not disturb this check -- the Miri program `data` still runs them free-running)
-K_PROGS = ["f0", "l0", "c0:1", "f0 f1", "f0 s1", "l0 p1", "f0 d0", "k0 d0 d1", "d0", "f0 k1 d0", "c0:2 d0", "l0 k1 d0 d1", "f0 f1 d0"]
+K_PROGS = ["f0", "l0", "c0:1", "f0 f1", "f0 s1", "l0 p1", "f0 d0", "k0 d0 d1", "d0", "f0 k1 d0", "c0:2 d0", "l0 k1 d0 d1", "f0 f1 d0",
+           "a0", "z0", "a0 a1", "a0 n1", "a0 d0"]
 
 
 def miri(program, lo, hi, timeout=1500, leaks=True):
